@@ -307,15 +307,761 @@ Proof.
 Qed.
 
 Example true_bounds_nontrivial :
-  (* FLOAT row group {1.0, NaN, -0.0} with min = -0.0, max = 1.0 *)
-  let b (x : N) := [x mod 256; (x / 256) mod 256; (x / 65536) mod 256; x / 16777216]%N in
-  let cs := mkCS true true 0 3 (b 0x80000000%N) (b 0x3F800000%N) in
-  true_bounds TFloat cs [b 0x3F800000%N; b 0x7FC00000%N; b 0x80000000%N] /\
-  sat TFloat OpEq (b 0x80000000%N) (b 0%N) = true /\
-  matches_stats TFloat cs (op_code OpEq) (b 0%N) = SOk true.
+  (* FLOAT row group {1.0, NaN, -0.0} with min = -0.0, max = 1.0; the probe +0.0 equals -0.0 *)
+  let one := [0; 0; 128; 63]%N in let nan := [0; 0; 192; 127]%N in let mzero := [0; 0; 0; 128]%N in
+  let cs := mkCS true true 0 3 mzero one in
+  true_bounds TFloat cs [one; nan; mzero] /\
+  sat TFloat OpEq mzero [0; 0; 0; 0]%N = true /\
+  matches_stats TFloat cs (op_code OpEq) [0; 0; 0; 0]%N = SOk true.
 Proof.
   cbv zeta. split; [|split; vm_compute; reflexivity].
-  intros _. repeat split; try (cbn; lia); try (vm_compute; reflexivity).
-  - intros v Hin Hn. cbn [In] in Hin. destruct Hin as [<-|[<-|[<-|[]]]]; try (vm_compute; discriminate); vm_compute in Hn; discriminate.
-  - intros v Hin Hn. cbn [In] in Hin. destruct Hin as [<-|[<-|[<-|[]]]]; try (vm_compute; discriminate); vm_compute in Hn; discriminate.
+  intros _.
+  split; [vm_compute; lia|]. split; [vm_compute; lia|].
+  split; [vm_compute; reflexivity|]. split; [vm_compute; reflexivity|].
+  intros v [<-|[<-|[<-|[]]]] Hn.
+  - split; vm_compute; discriminate.
+  - vm_compute in Hn. discriminate Hn.
+  - split; vm_compute; discriminate.
 Qed.
+
+(** ------------------------------------------------------------------------------------------------
+    Part 4: reader level - row_group_matches and filter_row_groups *)
+
+Definition col_type (r : rdr) (col : Z) : ptype :=
+  match nth_z (r_leaf_types r) col with Some (Some t) => t | _ => TByteArray end.
+
+(** prune_sound: a row group whose statistics are true bounds and which holds a value satisfying the predicate is
+    reported as "might match" (status OK) - for all six operators and all six reader-side types *)
+Theorem prune_sound_thm : forall r rg col cs data o probe,
+  reader_type (col_type r col) -> wf_val (col_type r col) probe ->
+  column_statistics r rg col = SOk cs -> true_bounds (col_type r col) cs data ->
+  (exists v, In v data /\ sat (col_type r col) o v probe = true) ->
+  row_group_matches r rg col (op_code o) probe = SOk (E_CARQUET_OK, true).
+Proof.
+  intros r rg col cs data o probe Ht Wp Hcs TB Hex.
+  unfold row_group_matches. rewrite Hcs. fold (col_type r col).
+  rewrite (matches_stats_sound _ cs data o probe Ht Wp TB Hex). reflexivity.
+Qed.
+
+(** absent statistics (no metadata, no Statistics struct, or not both bounds in either field pair) always mean
+    "might match"; so does every error status *)
+Theorem absent_stats_match_thm : forall r rg col op probe,
+  (forall cs, column_statistics r rg col = SOk cs -> cs_has_min_max cs = false) ->
+  exists st, row_group_matches r rg col op probe = SOk (st, true).
+Proof.
+  intros r rg col op probe H. unfold row_group_matches.
+  destruct (column_statistics r rg col) as [cs|c|f] eqn:E.
+  - specialize (H cs eq_refl). unfold matches_stats. rewrite H. cbn [negb bind]. eexists. reflexivity.
+  - eexists. reflexivity.
+  - exfalso. (* column_statistics never faults *)
+    unfold column_statistics in E.
+    destruct (nth_z (r_row_groups r) rg); [|discriminate].
+    destruct ((col <? 0) || (Z.of_nat (length (r_leaf_types r)) <=? col)); [discriminate|].
+    destruct (nth_z l col); [|discriminate].
+    destruct (negb (ch_has_metadata c)); [discriminate|].
+    destruct (ch_stats c); [|discriminate].
+    destruct (nonempty (ps_min_value p)), (nonempty (ps_max_value p)); try discriminate;
+      destruct (nonempty (ps_min_deprecated p)), (nonempty (ps_max_deprecated p)); discriminate.
+Qed.
+
+(** which fields column_statistics hands out: the new pair when both are present and non-empty, otherwise the
+    deprecated pair when both are present and non-empty, otherwise none *)
+Theorem column_statistics_fields_thm : forall r rg col cols ch ps,
+  nth_z (r_row_groups r) rg = Some cols -> (0 <= col < Z.of_nat (length (r_leaf_types r))) ->
+  nth_z cols col = Some ch -> ch_has_metadata ch = true -> ch_stats ch = Some ps ->
+  exists cs, column_statistics r rg col = SOk cs /\ cs_num_values cs = ch_num_values ch /\
+    cs_has_null_count cs = ps_has_null_count ps /\ (ps_has_null_count ps = true -> cs_null_count cs = ps_null_count ps) /\
+    match nonempty (ps_min_value ps), nonempty (ps_max_value ps) with
+    | Some mn, Some mx => cs_has_min_max cs = true /\ cs_min cs = mn /\ cs_max cs = mx
+    | _, _ =>
+      match nonempty (ps_min_deprecated ps), nonempty (ps_max_deprecated ps) with
+      | Some mn, Some mx => cs_has_min_max cs = true /\ cs_min cs = mn /\ cs_max cs = mx
+      | _, _ => cs_has_min_max cs = false
+      end
+    end.
+Proof.
+  intros r rg col cols ch ps H1 H2 H3 H4 H5. unfold column_statistics. rewrite H1.
+  assert (E : ((col <? 0) || (Z.of_nat (length (r_leaf_types r)) <=? col)) = false).
+  { apply orb_false_iff. split; [apply Z.ltb_ge|apply Z.leb_gt]; lia. }
+  rewrite E, H3, H4, H5. cbn [negb].
+  destruct (nonempty (ps_min_value ps)), (nonempty (ps_max_value ps));
+    try (destruct (nonempty (ps_min_deprecated ps)), (nonempty (ps_max_deprecated ps)));
+    eexists; (split; [reflexivity|]); cbn [cs_num_values cs_has_null_count cs_null_count cs_has_min_max cs_min cs_max];
+    repeat split; try reflexivity; intro Hn; rewrite Hn; reflexivity.
+Qed.
+
+Lemma rd_not_err : forall k v c, rd k v <> SErr c.
+Proof. intros k v c. unfold rd. destruct (Nat.leb k (length v)); discriminate. Qed.
+
+Lemma compare_R_not_err : forall t a b c, compare_R t a b <> SErr c.
+Proof.
+  intros t a b c. destruct t; cbn [compare_R]; unfold cmp_int, cmp_float_with; try discriminate;
+    (destruct (rd _ a) eqn:Ea; [|exfalso; exact (rd_not_err _ _ _ Ea)|discriminate]);
+    (destruct (rd _ b) eqn:Eb; [|exfalso; exact (rd_not_err _ _ _ Eb)|discriminate]); discriminate.
+Qed.
+
+Lemma matches_stats_not_err : forall t cs op value c, matches_stats t cs op value <> SErr c.
+Proof.
+  intros t cs op value c. unfold matches_stats. destruct (negb (cs_has_min_max cs)); [discriminate|].
+  destruct (compare_R t value (cs_min cs)) as [c1| |] eqn:E1; [|exfalso; exact (compare_R_not_err _ _ _ _ E1)|discriminate].
+  destruct (compare_R t value (cs_max cs)) as [c2| |] eqn:E2; [|exfalso; exact (compare_R_not_err _ _ _ _ E2)|discriminate].
+  cbn [bind]. destruct ((c1 =? UNORDERED) || (c2 =? UNORDERED)); discriminate.
+Qed.
+
+(** the decision filter_row_groups takes for row group i *)
+Definition might (r : rdr) (col op : Z) (value : bytes) (i : Z) : bool :=
+  match row_group_matches r i col op value with
+  | SOk (st, m) => if st =? E_CARQUET_OK then m else true
+  | _ => true
+  end.
+
+Definition no_fault (r : rdr) (col op : Z) (value : bytes) : Prop :=
+  forall i f, row_group_matches r i col op value <> SFault f.
+
+Lemma filter_loop_spec : forall r col op value mx n i acc,
+  no_fault r col op value -> Z.of_nat (length acc) <= mx ->
+  filter_loop r col op value mx i n acc =
+    SOk (rev acc ++ firstn (Z.to_nat (mx - Z.of_nat (length acc)))
+                           (filter (might r col op value) (map (fun k => i + Z.of_nat k) (seq 0 n)))).
+Proof.
+  intros r col op value mx. induction n as [|n IH]; intros i acc NF Hacc.
+  - cbn [filter_loop seq map filter]. rewrite firstn_nil, app_nil_r. reflexivity.
+  - cbn [filter_loop].
+    destruct (Z.leb_spec mx (Z.of_nat (length acc))).
+    + replace (mx - Z.of_nat (length acc)) with 0 by lia. cbn [Z.to_nat]. rewrite firstn_O, app_nil_r. reflexivity.
+    + cbn [seq map filter]. rewrite Z.add_0_r.
+      assert (Hm : map (fun k => i + Z.of_nat k) (seq 1 n) = map (fun k => (i + 1) + Z.of_nat k) (seq 0 n)).
+      { rewrite <- seq_shift, map_map. apply map_ext. intro k. lia. }
+      rewrite Hm.
+      unfold might at 1.
+      destruct (row_group_matches r i col op value) as [[st m]|c|f] eqn:E; cbn [bind].
+      * cbn [fst snd].
+        destruct (if st =? E_CARQUET_OK then m else true) eqn:Em.
+        -- rewrite IH by (try assumption; cbn [length]; lia).
+           cbn [rev length]. rewrite <- app_assoc. cbn [app].
+           replace (Z.to_nat (mx - Z.of_nat (length acc))) with (S (Z.to_nat (mx - Z.of_nat (S (length acc))))) by lia.
+           reflexivity.
+        -- rewrite IH by (try assumption; lia). reflexivity.
+      * (* row_group_matches never returns SErr: errors are reported through the status *)
+        exfalso. unfold row_group_matches in E.
+        destruct (column_statistics r i col) as [cs0| |]; try discriminate.
+        destruct (matches_stats _ cs0 op value) eqn:E2; try discriminate.
+        exact (matches_stats_not_err _ _ _ _ _ E2).
+      * exfalso. exact (NF i f E).
+Qed.
+
+(** filter_exact: the ascending list of might-match row groups capped at max_indices; -1 for max_indices <= 0 *)
+Theorem filter_exact_thm : forall r col op value max_indices,
+  no_fault r col op value ->
+  filter_row_groups r col op value max_indices =
+    SOk (if max_indices <=? 0 then None
+         else Some (firstn (Z.to_nat max_indices)
+                           (filter (might r col op value) (map Z.of_nat (seq 0 (length (r_row_groups r))))))).
+Proof.
+  intros r col op value mx NF. unfold filter_row_groups.
+  destruct (Z.leb_spec mx 0); [reflexivity|].
+  rewrite (filter_loop_spec r col op value mx (length (r_row_groups r)) 0 [] NF) by (cbn [length]; lia).
+  cbn [bind rev app length]. rewrite Z.sub_0_r. reflexivity.
+Qed.
+
+(** the hypothesis of filter_exact holds whenever every present min/max of the column is at least as wide as the type *)
+Lemma matches_stats_no_fault : forall t cs op value,
+  t <> TBoolean -> wf_val t value -> (cs_has_min_max cs = true -> wf_val t (cs_min cs) /\ wf_val t (cs_max cs)) ->
+  forall f, matches_stats t cs op value <> SFault f.
+Proof.
+  intros t cs op value Hnb Wv Wcs f. unfold matches_stats.
+  destruct (cs_has_min_max cs); cbn [negb]; [|discriminate].
+  destruct (Wcs eq_refl) as [Wa Wb].
+  assert (G : forall a b, wf_val t a -> wf_val t b -> exists c, compare_R t a b = SOk c).
+  { intros a b Ha Hb. destruct t; try congruence; unfold wf_val in Ha, Hb; cbn [width] in Ha, Hb; cbn [compare_R];
+      unfold cmp_int, cmp_float_with; rewrite ?(rd_ok _ _ Ha), ?(rd_ok _ _ Hb); cbn [bind]; eexists; reflexivity. }
+  destruct (G value (cs_min cs) Wv Wa) as [c1 E1]. destruct (G value (cs_max cs) Wv Wb) as [c2 E2].
+  rewrite E1, E2. cbn [bind]. destruct ((c1 =? UNORDERED) || (c2 =? UNORDERED)); discriminate.
+Qed.
+
+(** ------------------------------------------------------------------------------------------------
+    Part 5: the statistics builder *)
+
+Definition fits (v : bytes) : Prop := (length v <= BUF)%nat.
+
+(** invariant of the builder after the values [seen] (since the last reset) *)
+Definition binv (t : ptype) (b : sbuilder) (seen : list bytes) : Prop :=
+  sb_type b = t /\ sb_has_min b = sb_has_max b /\
+  (sb_has_min b = true ->
+     fits (sb_min b) /\ fits (sb_max b) /\ wf_val t (sb_min b) /\ wf_val t (sb_max b) /\
+     val_nan t (sb_min b) = false /\ val_nan t (sb_max b) = false /\
+     forall v, In v seen -> val_nan t v = false -> fits v -> ord t (sb_min b) v <= 0 /\ ord t v (sb_max b) <= 0) /\
+  (sb_has_min b = false -> forall v, In v seen -> fits v -> val_nan t v = true) /\
+  (sb_invalid b = false -> forall v, In v seen -> fits v).
+
+Ltac six := (split; [assumption|]); (split; [assumption|]); (split; [assumption|]); (split; [assumption|]);
+            (split; [assumption|]); (split; [assumption|]).
+
+Definition same_counts (b b' : sbuilder) : Prop :=
+  sb_type b' = sb_type b /\ sb_type_length b' = sb_type_length b /\ sb_null_count b' = sb_null_count b /\
+  sb_num_values b' = sb_num_values b.
+
+Lemma store_fits : forall v, fits v -> store BUF v = SOk v.
+Proof. intros v H. unfold store. apply Nat.leb_le in H. rewrite H. reflexivity. Qed.
+
+(** the common core of one loop iteration: v is well-formed, fits and is not NaN; c is the type's order *)
+Lemma minmax_step : forall t b seen v,
+  binv t b seen -> wf_val t v -> fits v -> val_nan t v = false ->
+  let cmin := if sb_has_min b then ord t v (sb_min b) else 0 in
+  let cmax := if sb_has_max b then ord t v (sb_max b) else 0 in
+  let mn := if negb (sb_has_min b) || (cmin <? 0) then v else sb_min b in
+  let mx := if negb (sb_has_max b) || (0 <? cmax) then v else sb_max b in
+  binv t (mkSB (sb_type b) (sb_type_length b) true true (sb_null_count b) (sb_num_values b) mn mx (sb_invalid b)) (v :: seen).
+Proof.
+  intros t b seen v (Ht & Hmm & Hb & Hn & Hi) Wv Fv Nv. cbv zeta.
+  pose proof (preorder_ord t) as P.
+  unfold binv. cbn [sb_type sb_has_min sb_has_max sb_min sb_max sb_invalid].
+  split; [exact Ht|]. split; [reflexivity|]. split; [|split].
+  - intros _. rewrite <- Hmm.
+    destruct (sb_has_min b) eqn:Hh; cbn [negb orb].
+    + destruct (Hb eq_refl) as (F1 & F2 & W1 & W2 & N1 & N2 & B).
+      pose proof (po_antisym _ P v (sb_min b)) as A1. pose proof (po_antisym _ P v (sb_max b)) as A2.
+      pose proof (po_refl _ P v) as Rv.
+      destruct (Z.ltb_spec (ord t v (sb_min b)) 0) as [L1|L1]; destruct (Z.ltb_spec 0 (ord t v (sb_max b))) as [L2|L2];
+        six;
+        intros w [<-|Hw] Nw Fw; try (destruct (B w Hw Nw Fw) as [B1 B2]);
+        try (pose proof (po_trans _ P v (sb_min b) w)); try (pose proof (po_trans _ P w (sb_max b) v)); lia.
+    + six. intros w [<-|Hw] Nw Fw; [rewrite (po_refl _ P); lia|]. specialize (Hn eq_refl w Hw Fw). congruence.
+  - discriminate.
+  - intros Hinv w [<-|Hw]; [exact Fv|]. exact (Hi Hinv w Hw).
+Qed.
+
+Lemma add_value_step_ok : forall t b seen v,
+  binv t b seen -> wf_val t v -> fits v ->
+  exists b', add_value_step b v = SOk b' /\ binv t b' (v :: seen) /\ same_counts b b' /\ sb_invalid b' = sb_invalid b.
+Proof.
+  intros t b seen v Hinv Wv Fv.
+  pose proof Hinv as (Ht & Hmm & Hb & Hn & Hi). subst t.
+  unfold add_value_step.
+  destruct (val_nan (sb_type b) v) eqn:Nv.
+  - exists b. split; [reflexivity|]. split; [|split; [repeat split|reflexivity]].
+    unfold binv. split; [reflexivity|]. split; [exact Hmm|]. split; [|split].
+    + intros Hh. destruct (Hb Hh) as (F1 & F2 & W1 & W2 & N1 & N2 & B). six.
+      intros w [<-|Hw] Nw Fw; [congruence|]. exact (B w Hw Nw Fw).
+    + intros Hh w [<-|Hw] Fw; [exact Nv|exact (Hn Hh w Hw Fw)].
+    + intros Hv w [<-|Hw]; [exact Fv|exact (Hi Hv w Hw)].
+  - pose proof (minmax_step (sb_type b) b seen v Hinv Wv Fv Nv) as Hstep. cbv zeta in Hstep.
+    rewrite <- Hmm in *.
+    destruct (sb_has_min b) eqn:Hh.
+    + destruct (Hb eq_refl) as (F1 & F2 & W1 & W2 & N1 & N2 & B).
+      rewrite (compare_M_ord (sb_type b) v (sb_min b) Wv W1 Nv N1). cbn [bind].
+      rewrite (compare_M_ord (sb_type b) v (sb_max b) Wv W2 Nv N2). cbn [bind].
+      cbn [negb orb] in Hstep |- *.
+      destruct (ord (sb_type b) v (sb_min b) <? 0); destruct (0 <? ord (sb_type b) v (sb_max b)); rewrite ?(store_fits v Fv); cbn [bind];
+        (eexists; split; [reflexivity|]; split; [exact Hstep|split; [repeat split|reflexivity]]).
+    + cbn [bind negb orb] in Hstep |- *. rewrite (store_fits v Fv). cbn [bind].
+      eexists; split; [reflexivity|]; split; [exact Hstep|split; [repeat split|reflexivity]].
+Qed.
+
+Lemma add_value_loop_ok : forall t vs b seen,
+  binv t b seen -> (forall v, In v vs -> wf_val t v /\ fits v) ->
+  exists b', add_value_loop b vs = SOk b' /\ binv t b' (rev vs ++ seen) /\ same_counts b b' /\ sb_invalid b' = sb_invalid b.
+Proof.
+  intros t. induction vs as [|v vs IH]; intros b seen Hinv Hvs.
+  - exists b. split; [reflexivity|]. split; [exact Hinv|]. split; [repeat split|reflexivity].
+  - cbn [add_value_loop].
+    destruct (Hvs v (or_introl eq_refl)) as [Wv Fv].
+    destruct (add_value_step_ok t b seen v Hinv Wv Fv) as (b1 & E1 & I1 & (C1 & C2 & C3 & C4) & V1).
+    rewrite E1. cbn [bind].
+    destruct (IH b1 (v :: seen) I1 (fun w Hw => Hvs w (or_intror Hw))) as (b2 & E2 & I2 & (D1 & D2 & D3 & D4) & V2).
+    exists b2. split; [exact E2|]. split.
+    + cbn [rev]. rewrite <- app_assoc. exact I2.
+    + split; [repeat split; congruence|congruence].
+Qed.
+
+Lemma add_bytes_step_ok : forall b seen v,
+  binv TByteArray b seen ->
+  exists b', add_bytes_step b v = SOk b' /\ binv TByteArray b' (v :: seen) /\ same_counts b b' /\
+             (sb_invalid b' = false -> sb_invalid b = false).
+Proof.
+  intros b seen v Hinv.
+  pose proof Hinv as (Ht & Hmm & Hb & Hn & Hi).
+  unfold add_bytes_step.
+  destruct (Nat.ltb_spec BUF (length v)) as [Big|Small].
+  - eexists. split; [reflexivity|]. split; [|split; [repeat split|cbn [sb_invalid]; discriminate]].
+    unfold binv. cbn [sb_type sb_has_min sb_has_max sb_min sb_max sb_invalid].
+    split; [exact Ht|]. split; [exact Hmm|]. split; [|split].
+    + intros Hh. destruct (Hb Hh) as (F1 & F2 & W1 & W2 & N1 & N2 & B). six.
+      intros w [<-|Hw] Nw Fw; [unfold fits in Fw; lia|]. exact (B w Hw Nw Fw).
+    + intros Hh w [<-|Hw] Fw; [unfold fits in Fw; lia|exact (Hn Hh w Hw Fw)].
+    + discriminate.
+  - assert (Fv : fits v) by exact Small.
+    assert (Wv : wf_val TByteArray v) by exact I.
+    pose proof (minmax_step TByteArray b seen v Hinv Wv Fv eq_refl) as Hstep. cbv zeta in Hstep.
+    cbn [ord] in Hstep.
+    destruct (negb (sb_has_min b) || ((if sb_has_min b then bytes_cmp v (sb_min b) else 0) <? 0));
+      destruct (negb (sb_has_max b) || (0 <? (if sb_has_max b then bytes_cmp v (sb_max b) else 0)));
+      rewrite ?(store_fits v Fv); cbn [bind];
+      (eexists; split; [reflexivity|]; split; [exact Hstep|split; [repeat split|cbn [sb_invalid]; auto]]).
+Qed.
+
+Lemma add_bytes_loop_ok : forall vs b seen,
+  binv TByteArray b seen ->
+  exists b', add_bytes_loop b vs = SOk b' /\ binv TByteArray b' (rev vs ++ seen) /\ same_counts b b'.
+Proof.
+  induction vs as [|v vs IH]; intros b seen Hinv.
+  - exists b. split; [reflexivity|]. split; [exact Hinv|repeat split].
+  - cbn [add_bytes_loop].
+    destruct (add_bytes_step_ok b seen v Hinv) as (b1 & E1 & I1 & (C1 & C2 & C3 & C4) & _).
+    rewrite E1. cbn [bind].
+    destruct (IH b1 (v :: seen) I1) as (b2 & E2 & I2 & (D1 & D2 & D3 & D4)).
+    exists b2. split; [exact E2|]. split; [cbn [rev]; rewrite <- app_assoc; exact I2|repeat split; congruence].
+Qed.
+
+(** which calls record their values (status CARQUET_OK) *)
+Definition accepts_values (t : ptype) (tlen : Z) (vs : list bytes) : bool :=
+  negb (Nat.eqb (length vs) 0) && negb (Nat.eqb (value_size t tlen) 0).
+Definition accepts_bytes (t : ptype) (vs : list bytes) : bool :=
+  negb (Nat.eqb (length vs) 0) && match t with TByteArray => true | _ => false end.
+
+(** the values recorded since the last reset and the nulls announced since then *)
+Fixpoint seen_of (t : ptype) (tlen : Z) (ops : list sop) (seen : list bytes) (nulls : Z) : list bytes * Z :=
+  match ops with
+  | [] => (seen, nulls)
+  | SAddValues vs :: rest => seen_of t tlen rest (if accepts_values t tlen vs then rev vs ++ seen else seen) nulls
+  | SAddBytes vs :: rest => seen_of t tlen rest (if accepts_bytes t vs then rev vs ++ seen else seen) nulls
+  | SAddNulls c :: rest => seen_of t tlen rest seen (nulls + c)
+  | SReset :: rest => seen_of t tlen rest [] 0
+  end.
+
+(** the caller's array holds num_values slices of value_size bytes *)
+Definition slices_ok (t : ptype) (tlen : Z) (ops : list sop) : Prop :=
+  forall vs, In (SAddValues vs) ops -> forall v, In v vs -> length v = value_size t tlen.
+
+Lemma wf_of_slice : forall t tlen v, length v = value_size t tlen -> wf_val t v.
+Proof. intros [] tlen v H; unfold wf_val; cbn [width value_size] in *; try lia; exact I. Qed.
+
+(** every invariant the oversize path needs: values that do not fit set the invalid flag *)
+Lemma binv_oversize : forall t b seen vs, binv t b seen -> (forall v, In v vs -> ~ fits v) ->
+  binv t (mkSB (sb_type b) (sb_type_length b) (sb_has_min b) (sb_has_max b) (sb_null_count b) (sb_num_values b + Z.of_nat (length vs))
+              (sb_min b) (sb_max b) true) (rev vs ++ seen).
+Proof.
+  intros t b seen vs (Ht & Hmm & Hb & Hn & Hi) Hbig. unfold binv.
+  cbn [sb_type sb_has_min sb_has_max sb_min sb_max sb_invalid].
+  split; [exact Ht|]. split; [exact Hmm|]. split; [|split].
+  - intros Hh. destruct (Hb Hh) as (F1 & F2 & W1 & W2 & N1 & N2 & B). six.
+    intros w Hw Nw Fw. apply in_app_or in Hw. destruct Hw as [Hw|Hw];
+      [apply in_rev in Hw; exfalso; exact (Hbig w Hw Fw)|exact (B w Hw Nw Fw)].
+  - intros Hh w Hw Fw. apply in_app_or in Hw. destruct Hw as [Hw|Hw]; [apply in_rev in Hw; exfalso; exact (Hbig w Hw Fw)|exact (Hn Hh w Hw Fw)].
+  - discriminate.
+Qed.
+
+Lemma binv_counts : forall t b seen n inv, binv t b seen -> (inv = sb_invalid b) ->
+  binv t (with_count b n inv) seen.
+Proof. intros t b seen n inv H ->. exact H. Qed.
+
+Lemma run_sops_ok : forall t tlen ops b seen nulls acc,
+  slices_ok t tlen ops -> binv t b seen -> sb_type_length b = tlen -> sb_null_count b = nulls ->
+  exists b' sts, run_sops b ops acc = SOk (b', sts) /\
+                 binv t b' (fst (seen_of t tlen ops seen nulls)) /\ sb_null_count b' = snd (seen_of t tlen ops seen nulls).
+Proof.
+  intros t tlen. induction ops as [|op ops IH]; intros b seen nulls acc Hs Hinv Hl Hnc.
+  - exists b, (rev acc). split; [reflexivity|]. split; [exact Hinv|exact Hnc].
+  - assert (Hs' : slices_ok t tlen ops) by (intros vs Hin; apply Hs; right; exact Hin).
+    pose proof Hinv as (Ht & _).
+    destruct op as [vs|vs|c|]; cbn [run_sops seen_of].
+    + (* add_values *)
+      unfold add_values, accepts_values. rewrite Ht, Hl.
+      destruct (Nat.eqb (length vs) 0) eqn:E0; cbn [negb andb bind fst snd].
+      { apply IH; assumption. }
+      destruct (Nat.eqb (value_size t tlen) 0) eqn:E1; cbn [negb andb bind fst snd].
+      { apply IH; assumption. }
+      assert (Hlen : forall v, In v vs -> length v = value_size t tlen) by (apply Hs; left; reflexivity).
+      destruct (Nat.ltb_spec BUF (value_size t tlen)) as [Big|Small]; cbn [bind fst snd].
+      * apply IH; try assumption.
+        apply binv_oversize; [exact Hinv|]. intros v Hv Fv. unfold fits in Fv. rewrite (Hlen v Hv) in Fv. lia.
+      * destruct (add_value_loop_ok t vs b seen Hinv) as (b1 & E & I1 & (C1 & C2 & C3 & C4) & V1).
+        { intros v Hv. split; [apply (wf_of_slice t tlen); apply Hlen; exact Hv|unfold fits; rewrite (Hlen v Hv); exact Small]. }
+        rewrite E. cbn [bind fst snd].
+        apply IH; try assumption; try (cbn [with_count sb_type_length sb_null_count]; congruence).
+    + (* add_byte_arrays *)
+      unfold add_byte_arrays, accepts_bytes. rewrite Ht.
+      destruct (Nat.eqb (length vs) 0) eqn:E0; cbn [negb andb bind fst snd].
+      { apply IH; assumption. }
+      destruct t; cbn [bind fst snd]; try (apply IH; assumption).
+      destruct (add_bytes_loop_ok vs b seen Hinv) as (b1 & E & I1 & (C1 & C2 & C3 & C4)).
+      rewrite E. cbn [bind fst snd].
+      apply IH; try assumption; try (cbn [with_count sb_type_length sb_null_count]; congruence).
+    + (* add_nulls *)
+      apply IH; try assumption; try reflexivity; try (cbn [add_nulls sb_null_count]; congruence).
+    + (* reset *)
+      apply IH; try assumption; try reflexivity.
+      unfold builder_reset, binv. cbn [sb_type sb_has_min sb_has_max sb_min sb_max sb_invalid].
+      split; [exact Ht|]. split; [reflexivity|]. split; [discriminate|]. split; intros _ v [].
+Qed.
+
+(** ** builder_bounds *)
+Theorem builder_bounds_thm : forall t tlen ops, slices_ok t tlen ops ->
+  exists b sts, run_sops (builder_create t tlen) ops [] = SOk (b, sts) /\
+    let ps := build b in
+    let seen := fst (seen_of t tlen ops [] 0) in
+    ps_has_null_count ps = true /\ ps_null_count ps = snd (seen_of t tlen ops [] 0) /\
+    (forall mn, ps_min_value ps = Some mn ->
+       val_nan t mn = false /\ forall v, In v seen -> val_nan t v = false -> ord t mn v <= 0) /\
+    (forall mx, ps_max_value ps = Some mx ->
+       val_nan t mx = false /\ forall v, In v seen -> val_nan t v = false -> ord t v mx <= 0).
+Proof.
+  intros t tlen ops Hs.
+  destruct (run_sops_ok t tlen ops (builder_create t tlen) [] 0 [] Hs) as (b & sts & E & Hinv & Hnc);
+    try reflexivity.
+  { unfold builder_create, binv. cbn [sb_type sb_has_min sb_has_max sb_min sb_max sb_invalid].
+    split; [reflexivity|]. split; [reflexivity|]. split; [discriminate|]. split; intros _ v []. }
+  exists b, sts. split; [exact E|]. cbv zeta.
+  destruct Hinv as (Ht & Hmm & Hb & Hn & Hi).
+  unfold build. cbn [ps_has_null_count ps_null_count ps_min_value ps_max_value].
+  split; [reflexivity|]. split; [exact Hnc|].
+  split.
+  - intros mn Hmn. destruct (sb_has_min b) eqn:Hh; cbn [andb] in Hmn; [|discriminate].
+    destruct (negb (Nat.eqb (length (sb_min b)) 0)); cbn [andb] in Hmn; [|discriminate].
+    destruct (sb_invalid b) eqn:Hv; cbn [negb] in Hmn; [discriminate|]. injection Hmn as <-.
+    destruct (Hb eq_refl) as (F1 & F2 & W1 & W2 & N1 & N2 & B).
+    split; [exact N1|]. intros v Hv' Nv. exact (proj1 (B v Hv' Nv (Hi eq_refl v Hv'))).
+  - intros mx Hmx. rewrite <- Hmm in Hmx. destruct (sb_has_min b) eqn:Hh; cbn [andb] in Hmx; [|discriminate].
+    destruct (negb (Nat.eqb (length (sb_max b)) 0)); cbn [andb] in Hmx; [|discriminate].
+    destruct (sb_invalid b) eqn:Hv; cbn [negb] in Hmx; [discriminate|]. injection Hmx as <-.
+    destruct (Hb eq_refl) as (F1 & F2 & W1 & W2 & N1 & N2 & B).
+    split; [exact N2|]. intros v Hv' Nv. exact (proj2 (B v Hv' Nv (Hi eq_refl v Hv'))).
+Qed.
+
+Example builder_bounds_nontrivial :
+  (* FLOAT: NaN first, then 1.0, 10.0, -0.0; three nulls *)
+  let ops := [SAddValues [[0; 0; 192; 127]; [0; 0; 128; 63]]%N; SAddNulls 3; SAddValues [[0; 0; 32; 65]; [0; 0; 0; 128]]%N] in
+  slices_ok TFloat 0 ops /\
+  exists b sts, run_sops (builder_create TFloat 0) ops [] = SOk (b, sts) /\
+    ps_min_value (build b) = Some [0; 0; 0; 128]%N /\ ps_max_value (build b) = Some [0; 0; 32; 65]%N /\ ps_null_count (build b) = 3.
+Proof.
+  cbv zeta. split.
+  - intros vs [E|[E|[E|[]]]] v Hv; try discriminate; injection E as <-; cbn [In] in Hv;
+      destruct Hv as [<-|[<-|[]]]; reflexivity.
+  - eexists _, _. split; [vm_compute; reflexivity|]. repeat split; vm_compute; reflexivity.
+Qed.
+
+Example builder_oversize_no_minmax :
+  (* DESIGN section 6 F13: "a" and 300 x 'z' - min/max are withheld instead of max = "a" *)
+  let ops := [SAddBytes [[97]; repeat 122 300]%N] in
+  exists b sts, run_sops (builder_create TByteArray 0) ops [] = SOk (b, sts) /\
+    ps_min_value (build b) = None /\ ps_max_value (build b) = None.
+Proof. cbv zeta. eexists _, _. split; [vm_compute; reflexivity|]. split; vm_compute; reflexivity. Qed.
+
+(** ------------------------------------------------------------------------------------------------
+    Part 6: the page writer's running statistics *)
+
+Lemma cmp3_ltb : forall a b, (cmp3 a b <? 0) = (a <? b).
+Proof.
+  intros a b. destruct (cmp3_cases a b) as [[A H]|[[A H]|[A H]]]; rewrite H.
+  - symmetry. apply Z.ltb_lt. exact A.
+  - subst. symmetry. apply Z.ltb_irrefl.
+  - symmetry. apply Z.ltb_ge. lia.
+Qed.
+
+Lemma w_lt_ord : forall t a b, pw_tracks t = true -> val_nan t a = false -> val_nan t b = false ->
+  w_lt t a b = (ord t a b <? 0).
+Proof.
+  intros [] a b Ht Na Nb; try discriminate Ht; cbn [w_lt ord]; rewrite cmp3_ltb; try reflexivity;
+    cbn [val_nan] in Na, Nb; unfold flt; rewrite Na, Nb; reflexivity.
+Qed.
+
+Definition pinv (t : ptype) (w : pwriter) (seen : list bytes) : Prop :=
+  pw_type w = t /\
+  (pw_has_min_max w = true ->
+     val_nan t (pw_min w) = false /\ val_nan t (pw_max w) = false /\
+     forall v, In v seen -> val_nan t v = false -> ord t (pw_min w) v <= 0 /\ ord t v (pw_max w) <= 0) /\
+  (pw_has_min_max w = false -> forall v, In v seen -> val_nan t v = true).
+
+Lemma pw_step_ok : forall t w seen v, pw_tracks t = true -> pinv t w seen ->
+  pinv t (pw_step w v) (v :: seen) /\ pw_num_nulls (pw_step w v) = pw_num_nulls w /\ pw_max_def (pw_step w v) = pw_max_def w.
+Proof.
+  intros t w seen v Htr (Ht & Hb & Hn). subst t.
+  pose proof (preorder_ord (pw_type w)) as P.
+  unfold pw_step. destruct (val_nan (pw_type w) v) eqn:Nv.
+  - split; [|split; reflexivity]. unfold pinv. split; [reflexivity|]. split.
+    + intros Hh. destruct (Hb Hh) as (N1 & N2 & B). split; [exact N1|]. split; [exact N2|].
+      intros x [<-|Hx] Nx; [congruence|exact (B x Hx Nx)].
+    + intros Hh x [<-|Hx]; [exact Nv|exact (Hn Hh x Hx)].
+  - destruct (pw_has_min_max w) eqn:Hh; cbn [negb].
+    + destruct (Hb eq_refl) as (N1 & N2 & B).
+      split; [|split; reflexivity]. unfold pinv. cbn [pw_type pw_has_min_max pw_min pw_max].
+      split; [reflexivity|]. split; [|discriminate]. intros _.
+      rewrite (w_lt_ord _ v (pw_min w) Htr Nv N1), (w_lt_ord _ (pw_max w) v Htr N2 Nv).
+      pose proof (po_antisym _ P v (pw_min w)) as A1. pose proof (po_antisym _ P v (pw_max w)) as A2.
+      pose proof (po_refl _ P v) as Rv.
+      destruct (Z.ltb_spec (ord (pw_type w) v (pw_min w)) 0) as [L1|L1];
+        destruct (Z.ltb_spec (ord (pw_type w) (pw_max w) v) 0) as [L2|L2];
+        (split; [assumption|]); (split; [assumption|]);
+        intros x [<-|Hx] Nx; try (destruct (B x Hx Nx) as [B1 B2]);
+        try (pose proof (po_trans _ P v (pw_min w) x)); try (pose proof (po_trans _ P x (pw_max w) v)); lia.
+    + split; [|split; reflexivity]. unfold pinv. cbn [pw_type pw_has_min_max pw_min pw_max].
+      split; [reflexivity|]. split; [|discriminate]. intros _.
+      split; [exact Nv|]. split; [exact Nv|].
+      intros x [<-|Hx] Nx; [rewrite (po_refl _ P); lia|]. specialize (Hn eq_refl x Hx). congruence.
+Qed.
+
+Lemma pw_fold_ok : forall t vs w seen, pw_tracks t = true -> pinv t w seen ->
+  pinv t (fold_left pw_step vs w) (rev vs ++ seen) /\ pw_num_nulls (fold_left pw_step vs w) = pw_num_nulls w /\
+  pw_max_def (fold_left pw_step vs w) = pw_max_def w.
+Proof.
+  intros t. induction vs as [|v vs IH]; intros w seen Htr Hinv.
+  - split; [exact Hinv|split; reflexivity].
+  - cbn [fold_left rev]. rewrite <- app_assoc.
+    destruct (pw_step_ok t w seen v Htr Hinv) as (I1 & E1 & E2).
+    destruct (IH (pw_step w v) (v :: seen) Htr I1) as (I2 & E3 & E4).
+    split; [exact I2|split; congruence].
+Qed.
+
+(** a batch: the dense non-null values, num_values, the definition levels when given *)
+Definition batch : Type := list bytes * Z * option (list Z).
+
+Definition pw_run (t : ptype) (maxdef : Z) (bs : list batch) : pwriter :=
+  fold_left (fun w (b : batch) => pw_add_values w (fst (fst b)) (snd (fst b)) (snd b)) bs (pw_create t maxdef).
+
+(** nulls of a batch: rows whose definition level is below the maximum *)
+Definition batch_nulls (maxdef : Z) (b : batch) : Z :=
+  match snd b with
+  | Some ds => if 0 <? maxdef then Z.of_nat (length (filter (fun d => negb (d =? maxdef)) ds)) else 0
+  | None => 0
+  end.
+
+Lemma filter_split_length : forall A (f : A -> bool) l,
+  (length (filter f l) + length (filter (fun x => negb (f x)) l) = length l)%nat.
+Proof.
+  intros A f l. induction l as [|x l IH]; [reflexivity|]. cbn [filter]. destruct (f x); cbn [negb length]; lia.
+Qed.
+
+Definition batches_ok (bs : list batch) : Prop :=
+  forall b ds, In b bs -> snd b = Some ds -> Z.of_nat (length ds) = snd (fst b).
+
+Lemma pw_run_inv : forall t maxdef bs w seen nulls,
+  pw_tracks t = true -> batches_ok bs -> pinv t w seen -> pw_max_def w = maxdef -> pw_num_nulls w = nulls ->
+  let w' := fold_left (fun w (b : batch) => pw_add_values w (fst (fst b)) (snd (fst b)) (snd b)) bs w in
+  pinv t w' (rev (flat_map (fun b : batch => fst (fst b)) bs) ++ seen) /\
+  pw_num_nulls w' = nulls + fold_right Z.add 0 (map (batch_nulls maxdef) bs).
+Proof.
+  intros t maxdef. induction bs as [|b bs IH]; intros w seen nulls Htr Hok Hinv Hmd Hn; cbv zeta.
+  - cbn. split; [exact Hinv|lia].
+  - cbn [fold_left flat_map map fold_right].
+    destruct b as [[vals nv] defs]. cbn [fst snd].
+    assert (Hok' : batches_ok bs) by (intros b0 ds0 Hin; apply Hok; right; exact Hin).
+    destruct Hinv as (Ht & Hb & Hnn).
+    assert (Htr' : pw_tracks (pw_type w) = true) by (rewrite Ht; exact Htr).
+    set (nl := match defs with
+               | Some ds => if 0 <? pw_max_def w then nv - Z.of_nat (length (filter (fun d => d =? pw_max_def w) ds)) else 0
+               | None => 0 end).
+    set (w1 := mkPW (pw_type w) (pw_max_def w) (pw_num_values w + nv) (pw_num_nulls w + nl) (pw_has_min_max w) (pw_min w) (pw_max w)).
+    assert (Hadd : pw_add_values w vals nv defs = fold_left pw_step vals w1).
+    { unfold pw_add_values. rewrite Htr'. reflexivity. }
+    rewrite Hadd.
+    assert (I1 : pinv t w1 seen) by (unfold pinv, w1; cbn [pw_type pw_has_min_max pw_min pw_max]; auto).
+    destruct (pw_fold_ok t vals w1 seen Htr I1) as (I2 & E1 & E2).
+    specialize (IH (fold_left pw_step vals w1) (rev vals ++ seen) (nulls + batch_nulls maxdef (vals, nv, defs)) Htr Hok' I2).
+    cbv zeta in IH. destruct IH as (I3 & E3).
+    + rewrite E2. exact Hmd.
+    + rewrite E1. unfold w1. cbn [pw_num_nulls]. rewrite Hn. f_equal.
+      unfold nl, batch_nulls. cbn [snd]. rewrite Hmd. destruct defs as [ds|]; [|reflexivity].
+      destruct (0 <? maxdef); [|reflexivity].
+      pose proof (Hok (vals, nv, Some ds) ds (or_introl eq_refl) eq_refl) as Hl. cbn [fst snd] in Hl.
+      pose proof (filter_split_length _ (fun d => d =? maxdef) ds). lia.
+    + split.
+      * rewrite rev_app_distr, <- app_assoc. exact I3.
+      * rewrite E3. lia.
+Qed.
+
+(** ** writer_page_stats_bounds *)
+Theorem writer_page_stats_bounds_thm : forall t maxdef bs ps,
+  pw_tracks t = true -> batches_ok bs -> pw_statistics (pw_run t maxdef bs) = Some ps ->
+  let values := flat_map (fun b : batch => fst (fst b)) bs in
+  ps_has_null_count ps = true /\ ps_null_count ps = fold_right Z.add 0 (map (batch_nulls maxdef) bs) /\
+  exists mn mx, ps_min_value ps = Some mn /\ ps_max_value ps = Some mx /\
+    val_nan t mn = false /\ val_nan t mx = false /\
+    forall v, In v values -> val_nan t v = false -> ord t mn v <= 0 /\ ord t v mx <= 0.
+Proof.
+  intros t maxdef bs ps Htr Hok Hps. cbv zeta.
+  destruct (pw_run_inv t maxdef bs (pw_create t maxdef) [] 0 Htr Hok) as (Hinv & Hn); try reflexivity.
+  { unfold pinv, pw_create. cbn [pw_type pw_has_min_max]. split; [reflexivity|]. split; [discriminate|]. intros _ v []. }
+  cbv zeta in Hinv, Hn. fold (pw_run t maxdef bs) in Hinv, Hn.
+  unfold pw_statistics in Hps. destruct (pw_has_min_max (pw_run t maxdef bs)) eqn:Hh; [|discriminate].
+  injection Hps as <-. cbn [ps_has_null_count ps_null_count ps_min_value ps_max_value].
+  destruct Hinv as (_ & Hb & _). destruct (Hb Hh) as (N1 & N2 & B).
+  split; [reflexivity|]. split; [rewrite Hn; lia|].
+  eexists _, _. split; [reflexivity|]. split; [reflexivity|]. split; [exact N1|]. split; [exact N2|].
+  intros v Hv Nv. apply B; [|exact Nv]. rewrite app_nil_r. apply in_rev in Hv. exact Hv.
+Qed.
+
+Example writer_nan_first :
+  (* DESIGN section 6 F14: NaN as the first value no longer freezes min = max = NaN *)
+  let bs : list batch := [([[0; 0; 192; 127]; [0; 0; 128; 63]; [0; 0; 160; 64]]%N, 4, Some [1; 1; 0; 1])] in
+  batches_ok bs /\
+  pw_statistics (pw_run TFloat 1 bs) = Some (mkPS true 1 (Some [0; 0; 128; 63]%N) (Some [0; 0; 160; 64]%N) None None).
+Proof.
+  cbv zeta. split; [|vm_compute; reflexivity].
+  intros b ds [<-|[]] E. cbn [snd fst] in *. injection E as <-. reflexivity.
+Qed.
+
+(** ------------------------------------------------------------------------------------------------
+    Part 7: compare / range-overlap / page-might-match have no false negatives *)
+
+(** an optional bound (absent or empty = no bound) bounds the non-NaN data from below / above *)
+Definition lower_ok (t : ptype) (mn : option bytes) (data : list bytes) : Prop :=
+  forall m, nonempty mn = Some m ->
+    wf_val t m /\ val_nan t m = false /\ forall v, In v data -> val_nan t v = false -> ord t m v <= 0.
+Definition upper_ok (t : ptype) (mx : option bytes) (data : list bytes) : Prop :=
+  forall m, nonempty mx = Some m ->
+    wf_val t m /\ val_nan t m = false /\ forall v, In v data -> val_nan t v = false -> ord t v m <= 0.
+
+Lemma sat_eq_inv : forall t v p, sat t OpEq v p = true -> val_nan t v = false /\ val_nan t p = false /\ ord t v p = 0.
+Proof.
+  intros t v p H. unfold sat in H. apply andb_true_iff in H. destruct H as [H1 H2].
+  apply negb_true_iff in H1. apply orb_false_iff in H1. destruct H1. apply Z.eqb_eq in H2. auto.
+Qed.
+Lemma sat_le_inv : forall t v p, sat t OpLe v p = true -> val_nan t v = false /\ val_nan t p = false /\ ord t v p <= 0.
+Proof.
+  intros t v p H. unfold sat in H. apply andb_true_iff in H. destruct H as [H1 H2].
+  apply negb_true_iff in H1. apply orb_false_iff in H1. destruct H1. apply Z.leb_le in H2. auto.
+Qed.
+Lemma sat_ge_inv : forall t v p, sat t OpGe v p = true -> val_nan t v = false /\ val_nan t p = false /\ 0 <= ord t v p.
+Proof.
+  intros t v p H. unfold sat in H. apply andb_true_iff in H. destruct H as [H1 H2].
+  apply negb_true_iff in H1. apply orb_false_iff in H1. destruct H1. apply Z.leb_le in H2. auto.
+Qed.
+
+(** ** compare_sound: a value the data holds is reported as "in range" (0) *)
+Theorem compare_sound_thm : forall t ps data value,
+  wf_val t value -> lower_ok t (ps_min_value ps) data -> upper_ok t (ps_max_value ps) data ->
+  (exists v, In v data /\ sat t OpEq v value = true) ->
+  statistics_compare ps t value = SOk 0.
+Proof.
+  intros t ps data value Wv Hlo Hhi (v & Hin & Hs).
+  destruct (sat_eq_inv t v value Hs) as (Nv & Np & Heq).
+  pose proof (preorder_ord t) as P.
+  unfold statistics_compare.
+  assert (Hbelow : (match nonempty (ps_min_value ps) with
+                    | Some mn => bind (compare_M t value mn) (fun c => SOk (c <? 0))
+                    | None => SOk false end) = SOk false).
+  { destruct (nonempty (ps_min_value ps)) as [m|] eqn:E; [|reflexivity].
+    destruct (Hlo m E) as (Wm & Nm & B). rewrite (compare_M_ord t value m Wv Wm Np Nm). cbn [bind]. f_equal.
+    apply Z.ltb_ge. specialize (B v Hin Nv).
+    pose proof (po_trans _ P m v value). pose proof (po_antisym _ P value m). pose proof (po_antisym _ P m value). lia. }
+  rewrite Hbelow. cbn [bind].
+  assert (Habove : (match nonempty (ps_max_value ps) with
+                    | Some mx => bind (compare_M t value mx) (fun c => SOk (0 <? c))
+                    | None => SOk false end) = SOk false).
+  { destruct (nonempty (ps_max_value ps)) as [m|] eqn:E; [|reflexivity].
+    destruct (Hhi m E) as (Wm & Nm & B). rewrite (compare_M_ord t value m Wv Wm Np Nm). cbn [bind]. f_equal.
+    apply Z.ltb_ge. specialize (B v Hin Nv).
+    pose proof (po_trans _ P value v m). pose proof (po_antisym _ P value v). lia. }
+  rewrite Habove. reflexivity.
+Qed.
+
+(** on the six reader types the overlap helper compares in the type's order *)
+Lemma compare_M_overlap_ord : forall t a b, reader_type t -> wf_val t a -> wf_val t b ->
+  val_nan t a = false -> val_nan t b = false -> compare_M_overlap t a b = SOk (ord t a b).
+Proof.
+  intros t a b Ht Wa Wb Na Nb.
+  destruct Ht as [E|[E|[E|[E|[E|E]]]]]; subst t; cbn [compare_M_overlap]; try (apply compare_M_ord; assumption); reflexivity.
+Qed.
+
+(** ** overlap_sound: a query range that holds a value of the data overlaps the statistics *)
+Theorem overlap_sound_thm : forall t ps data qmin qmax,
+  reader_type t ->
+  (forall a, qmin = Some a -> wf_val t a) -> (forall b, qmax = Some b -> wf_val t b) ->
+  lower_ok t (ps_min_value ps) data -> upper_ok t (ps_max_value ps) data ->
+  (exists v, In v data /\ (forall a, qmin = Some a -> sat t OpGe v a = true) /\
+                          (forall b, qmax = Some b -> sat t OpLe v b = true) /\ val_nan t v = false) ->
+  range_overlaps ps t qmin qmax = SOk true.
+Proof.
+  intros t ps data qmin qmax Ht Wa Wb Hlo Hhi (v & Hin & Hge & Hle & Nv).
+  pose proof (preorder_ord t) as P.
+  unfold range_overlaps.
+  assert (Hlow : (match qmax, nonempty (ps_min_value ps) with
+                  | Some q, Some mn => bind (compare_M_overlap t q mn) (fun c => SOk (c <? 0))
+                  | _, _ => SOk false end) = SOk false).
+  { destruct qmax as [q|]; [|reflexivity]. destruct (nonempty (ps_min_value ps)) as [m|] eqn:E; [|reflexivity].
+    destruct (Hlo m E) as (Wm & Nm & B). destruct (sat_le_inv t v q (Hle q eq_refl)) as (_ & Nq & Hvq).
+    rewrite (compare_M_overlap_ord t q m Ht (Wb q eq_refl) Wm Nq Nm). cbn [bind]. f_equal.
+    apply Z.ltb_ge. specialize (B v Hin Nv).
+    pose proof (po_trans _ P m v q). pose proof (po_antisym _ P q m). lia. }
+  rewrite Hlow. cbn [bind].
+  assert (Hhigh : (match qmin, nonempty (ps_max_value ps) with
+                   | Some q, Some mx => bind (compare_M_overlap t q mx) (fun c => SOk (0 <? c))
+                   | _, _ => SOk false end) = SOk false).
+  { destruct qmin as [q|]; [|reflexivity]. destruct (nonempty (ps_max_value ps)) as [m|] eqn:E; [|reflexivity].
+    destruct (Hhi m E) as (Wm & Nm & B). destruct (sat_ge_inv t v q (Hge q eq_refl)) as (_ & Nq & Hvq).
+    rewrite (compare_M_overlap_ord t q m Ht (Wa q eq_refl) Wm Nq Nm). cbn [bind]. f_equal.
+    apply Z.ltb_ge. specialize (B v Hin Nv).
+    pose proof (po_trans _ P q v m). pose proof (po_antisym _ P v q). lia. }
+  rewrite Hhigh. reflexivity.
+Qed.
+
+(** P on well-formed operands of a reader type: the type's order, or UNORDERED when a NaN is involved *)
+Lemma compare_P_ord : forall t a b, reader_type t -> wf_val t a -> wf_val t b ->
+  val_nan t a = false -> val_nan t b = false -> compare_P t a b = SOk (ord t a b).
+Proof.
+  intros t a b Ht Wa Wb Na Nb.
+  destruct Ht as [E|[E|[E|[E|[E|E]]]]]; subst t; unfold wf_val in Wa, Wb; cbn [width] in Wa, Wb; cbn [compare_P];
+    try reflexivity;
+    (apply Nat.leb_le in Wa; apply Nat.leb_le in Wb; rewrite Wa, Wb; cbn [andb];
+     apply Nat.leb_le in Wa; apply Nat.leb_le in Wb).
+  - apply (compare_R_ord TInt32); try assumption; discriminate.
+  - apply (compare_R_ord TInt64); try assumption; discriminate.
+  - apply (compare_R_ord TFloat); try assumption; discriminate.
+  - apply (compare_R_ord TDouble); try assumption; discriminate.
+Qed.
+
+(** pages as carquet_column_index_add_page stores them: never an empty min or max *)
+Definition page_wf (pg : page) : Prop := pg_min pg <> Some [] /\ pg_max pg <> Some [].
+
+Lemma add_page_wf : forall pages nc mn mx np, Forall page_wf pages -> Forall page_wf (add_page pages nc mn mx np).
+Proof.
+  intros pages nc mn mx np H. unfold add_page. apply Forall_app. split; [exact H|]. constructor; [|constructor].
+  unfold page_wf. cbn [pg_min pg_max]. split; [destruct mn as [[|]|]|destruct mx as [[|]|]]; discriminate.
+Qed.
+
+(** ** page_might_match_sound *)
+Theorem page_might_match_sound_thm : forall t pages idx pg data qmin qmax,
+  reader_type t -> 0 <= idx -> nth_error pages (Z.to_nat idx) = Some pg -> page_wf pg ->
+  (pg_null_page pg = true -> data = []) ->
+  (forall a, qmin = Some a -> wf_val t a) -> (forall b, qmax = Some b -> wf_val t b) ->
+  lower_ok t (pg_min pg) data -> upper_ok t (pg_max pg) data ->
+  (exists v, In v data /\ (forall a, qmin = Some a -> sat t OpGe v a = true) /\
+                          (forall b, qmax = Some b -> sat t OpLe v b = true) /\ val_nan t v = false) ->
+  page_might_match t pages idx qmin qmax = SOk (E_CARQUET_OK, true).
+Proof.
+  intros t pages idx pg data qmin qmax Ht Hidx Hpg [Hw1 Hw2] Hnull Wa Wb Hlo Hhi (v & Hin & Hge & Hle & Nv).
+  pose proof (preorder_ord t) as P.
+  unfold page_might_match.
+  destruct (Z.ltb_spec idx 0); [lia|]. rewrite Hpg.
+  destruct (pg_null_page pg) eqn:Enp; [rewrite (Hnull eq_refl) in Hin; destruct Hin|].
+  assert (Hlow : (match qmax, pg_min pg with
+                  | Some q, Some mn => bind (compare_P t q mn) (fun c => SOk (c =? -1))
+                  | _, _ => SOk false end) = SOk false).
+  { destruct qmax as [q|]; [|reflexivity]. destruct (pg_min pg) as [m|] eqn:E; [|reflexivity].
+    destruct (sat_le_inv t v q (Hle q eq_refl)) as (_ & Nq & Hvq).
+    destruct m as [|x m']; [exfalso; apply Hw1; reflexivity|].
+    destruct (Hlo (x :: m') eq_refl) as (Wm & Nm & B).
+    rewrite (compare_P_ord t q (x :: m') Ht (Wb q eq_refl) Wm Nq Nm). cbn [bind]. f_equal.
+    apply Z.eqb_neq. specialize (B v Hin Nv).
+    pose proof (po_trans _ P (x :: m') v q). pose proof (po_antisym _ P q (x :: m')). lia. }
+  rewrite Hlow. cbn [bind].
+  assert (Hhigh : (match qmin, pg_max pg with
+                   | Some q, Some mx => bind (compare_P t q mx) (fun c => SOk (c =? 1))
+                   | _, _ => SOk false end) = SOk false).
+  { destruct qmin as [q|]; [|reflexivity]. destruct (pg_max pg) as [m|] eqn:E; [|reflexivity].
+    destruct (sat_ge_inv t v q (Hge q eq_refl)) as (_ & Nq & Hvq).
+    destruct m as [|x m']; [exfalso; apply Hw2; reflexivity|].
+    destruct (Hhi (x :: m') eq_refl) as (Wm & Nm & B).
+    rewrite (compare_P_ord t q (x :: m') Ht (Wa q eq_refl) Wm Nq Nm). cbn [bind]. f_equal.
+    apply Z.eqb_neq. specialize (B v Hin Nv).
+    pose proof (po_trans _ P q v (x :: m')). pose proof (po_antisym _ P v q). lia. }
+  rewrite Hhigh. reflexivity.
+Qed.
+
+Example page_might_match_f16 :
+  (* DESIGN section 6 F16: INT32 page [1, 1000], query [0, 256] *)
+  let i32 (x : N) := [x mod 256; (x / 256) mod 256; 0; 0]%N in
+  page_might_match TInt32 (add_page [] 0 (Some (i32 1%N)) (Some (i32 1000%N)) false) 0 (Some (i32 0%N)) (Some (i32 256%N))
+  = SOk (E_CARQUET_OK, true).
+Proof. vm_compute. reflexivity. Qed.
